@@ -77,6 +77,18 @@ def oracle(out, rng, n, sweep):
             if (q.data_page, q.pdu_format, q.pdu_specific) != (1 - dp, (pf + 1) % 256, (ps + 1) % 256) or \
                q.value != (((1 - dp) << 16) | (((pf + 1) % 256) << 8) | ((ps + 1) % 256)):
                 bad('pgn-reused-object-fields', g, (q.data_page, q.pdu_format, q.pdu_specific, q.value), (1 - dp, (pf + 1) % 256, (ps + 1) % 256))
+    # ... and ONE object that parses one identifier after the other (a decoder that keeps a scratch object): what it reads
+    # after each from_message_id is that identifier's PGN and nothing of the one before — pairs that differ in the data page,
+    # the format byte or the specific byte in both directions among them
+    scratch = PGN()
+    seq = [t[0] for t in items.tuples(rng, [18], min(n, 400))]
+    seq = [g2 for g in seq for g2 in (g, g ^ 0x10000, g, g | 0x10000, g & 0xFFFF, g ^ 0xFF, g ^ 0xFF00)]
+    for g in seq:
+        scratch.from_message_id(MessageId(priority=0, parameter_group_number=g, source_address=0))
+        dp, pf, ps = R.ref_pgn_fields(g)
+        if (scratch.data_page, scratch.pdu_format, scratch.pdu_specific, scratch.value) != (dp, pf, ps, g % 2 ** 17):
+            bad('pgn-reused-object-from-message-id', g, (scratch.data_page, scratch.pdu_format, scratch.pdu_specific, scratch.value), (dp, pf, ps, g % 2 ** 17))
+            break
     vals = [t[0] for t in items.tuples(rng, [64], n)]
     if sweep:
         vals += [rng.getrandbits(64) for _ in range(100000)]
